@@ -194,3 +194,139 @@ Lemma vb_erc20_transfer tt a b x : In a U -> In b U -> pdelta co (erc20_transfer
 Proof. intros; subst co; vb_fin U HU. Qed.
 
 End VB.
+
+(* ------------------------------------------------------------------------------------------------ *)
+(** * C04 conservation: instance of the generic invariant *)
+
+Section HOLD.
+Variables (g : cfg) (U : list Z) (t : Z).
+Hypothesis HU : users U.
+
+Definition wT (c i : Z) : Z := ind (i =? t).
+Definition gdT (gh : ghost) : Z := get1 t (dept gh).
+Definition geT (gh : ghost) : Z := get1 t (exet gh).
+
+Lemma vb_refund_mint c tk x : pdelta (coef (Vb U t)) (refund_mint c tk x) = 0.
+Proof. unfold refund_mint. cbn [pdelta]. destruct (origin_or_converted tk); vb_fin U HU. Qed.
+Lemma vb_refund_unlock c a tk x : In a U -> pdelta (coef (Vb U t)) (refund_unlock c a tk x) = tki t tk * x.
+Proof. intros. unfold refund_unlock, tki. vb_fin U HU. Qed.
+
+Lemma blocks_hold : blocks g U (Vb U t) wT gdT geT 0 1.
+Proof.
+  constructor; intros; try (apply dB_pdelta); [| | | | | | |reflexivity| | | | | | | | | | | | |].
+  - rewrite vb_base_to_bridge_token by assumption. reflexivity.
+  - rewrite vb_bridge_token_to_base by assumption. reflexivity.
+  - apply vb_convert_coin; assumption.
+  - apply vb_convert_erc20; assumption.
+  - apply vb_convert_denom_to_target; assumption.
+  - apply vb_msg_convert_denom; assumption.
+  - rewrite vb_add_bridge_fee by assumption. reflexivity.
+  - rewrite vb_refund_mint. lia.
+  - rewrite vb_refund_unlock by assumption. unfold wT, tki. lia.
+  - apply vb_handler_origin_token; assumption.
+  - apply vb_handler_erc20_token; assumption.
+  - apply vb_send; assumption.
+  - apply vb_erc20_transfer; assumption.
+  - apply vb_wfx_deposit; assumption.
+  - apply vb_wfx_withdraw; assumption.
+  - rewrite vb_ibc_mint by assumption. reflexivity.
+  - apply vb_ibc_to_base; assumption.
+  - apply vb_base_to_ibc; assumption.
+  - unfold gdT, geT, wT, ind. cbn [dept exet]. rewrite get1_set1, (Z.eqb_sym t i).
+    destruct (Z.eqb_spec i t); [subst|]; split; lia.
+  - unfold gdT, geT, wT, ind. cbn [dept exet]. rewrite get1_set1, (Z.eqb_sym t i).
+    destruct (Z.eqb_spec i t); [subst|]; split; lia.
+Qed.
+
+End HOLD.
+
+(* the statement in the property's words *)
+Definition user_holdings (U : list Z) (t : Z) (s : state) : Z := Vb U t (sb s).
+Definition in_flight (t : Z) (s : state) : Z := infl (wT t) (sr s).
+Definition deposited (t : Z) (s : state) : Z := get1 t (dept (sg s)).
+Definition executed_out (t : Z) (s : state) : Z := get1 t (exet (sg s)).
+
+Theorem conservation U g t s0 ops : users U -> recs_wf U (sr s0) -> Forall (op_ok U) ops ->
+  let s := steps g s0 ops in
+  user_holdings U t s + in_flight t s =
+  user_holdings U t s0 + in_flight t s0 + (deposited t s - deposited t s0) - (executed_out t s - executed_out t s0).
+Proof.
+  intros HU W Hops s.
+  destruct (steps_keeps g U (Vb U t) (wT t) (gdT t) (geT t) 0 1 (blocks_hold g U t HU) ops Hops s0 W) as [E _]. fold s in E.
+  unfold V, gdT, geT in E. unfold user_holdings, in_flight, deposited, executed_out. lia.
+Qed.
+
+(* user_holdings is the sum over the users of every denomination 10t..10t+9 and the ERC-20 balance *)
+Lemma user_holdings_unfold U t s :
+  user_holdings U t s =
+  fold_right (fun a acc => (fold_right (fun r acc' => get2 (a, 10 * t + r) (bank (sb s)) + acc') 0 reps
+                            + get2 (t, a) (ebal (sb s))) + acc) 0 U.
+Proof.
+  unfold user_holdings, Vb. rewrite lin_sum_L. induction U as [|a U IH]; [reflexivity|].
+  cbn [fold_right]. rewrite <- IH. reflexivity.
+Qed.
+
+(* in_flight is the sum of amount+fee over the pool and the batches and of the token's amounts over the bridge calls *)
+Lemma in_flight_unfold t s :
+  in_flight t s =
+  sumZ (map (fun p => ind (p_tok p =? t) * (p_amt p + p_fee p)) (pool (sr s)))
+  + sumZ (map (fun p => ind (p_tok p =? t) * (p_amt p + p_fee p)) (flat_map b_txs (batches (sr s))))
+  + sumZ (map (fun b => sumZ (map (fun q => ind (fst q =? t) * snd q) (c_toks b))) (calls (sr s))).
+Proof. reflexivity. Qed.
+
+(* ------------------------------------------------------------------------------------------------ *)
+(** * Supply of a module-owned token's bridge denomination on one chain *)
+
+Section SUP.
+Variables (g : cfg) (U : list Z) (i c : Z) (tkI : token).
+Hypothesis HU : users U.
+Hypothesis Hc : chain_ok c = true.
+Hypothesis Hi : find_tok g i = Some tkI.
+Hypothesis Hk : t_kind tkI = KMod.
+
+Definition wS (c' i' : Z) : Z := ind ((c' =? c) && (i' =? i)).
+Definition gdS (gh : ghost) : Z := get2 (i, c) (depc gh).
+Definition geS (gh : ghost) : Z := get2 (i, c) (exec gh).
+Definition lS : lin := lin_cell (CS (10 * i + c)).
+
+Lemma fromcfg_kindS tk : fromcfg g tk -> t_id tk = i -> t_kind tk = KMod.
+Proof. unfold fromcfg. intros H E. rewrite E, Hi in H. injection H as <-. assumption. Qed.
+
+Ltac sup_fin tk Htk :=
+  apply dB_pdelta; blk_unfold; den_unfold; unfold lS, wS, ind;
+  assert (Hcc : 1 <= c <= 8) by (unfold chain_ok in Hc; apply andb_true_iff in Hc as [H1 H2]; apply Z.leb_le in H1, H2; lia);
+  (destruct (Z.eqb_spec (t_id tk) i) as [Eid|Eid];
+   [pose proof (fromcfg_kindS tk Htk Eid) as K; rewrite ?K | destruct (t_kind tk)]);
+  split_leb; split_eqb; split_if; pd_cbn; cbn [coef lin_cell cell_eqb]; split_eqb; try lia.
+
+Lemma blocks_sup : blocks g U lS wS gdS geS 1 0.
+Proof.
+  constructor; [intros tk c' a x Htk Ha|intros tk c' a x Htk Ha|intros tk a b x Htk Ha Hb|intros tk a b x Htk Ha Hb|
+                intros tk a src tg x Htk Ha|intros tk a b src tg x Htk Ha Hb|intros tk c' a x Htk Ha|reflexivity|
+                intros tk c' x Htk|intros tk c' a x Htk Ha|intros a x Ha|intros tk a x Htk Ha|intros a b d x Ha Hb|
+                intros i' a b x Ha Hb|intros a x Ha|intros a x Ha|intros tk a x Htk Ha|intros tk a x Htk Ha|intros tk a x Htk Ha| |].
+  - sup_fin tk Htk.
+  - sup_fin tk Htk.
+  - sup_fin tk Htk.
+  - sup_fin tk Htk.
+  - sup_fin tk Htk.
+  - sup_fin tk Htk.
+  - sup_fin tk Htk.
+  - sup_fin tk Htk.
+  - sup_fin tk Htk.
+  - apply dB_pdelta. unfold handler_origin_token, lS. pd_cbn. cbn [coef lin_cell cell_eqb]. lia.
+  - sup_fin tk Htk.
+  - apply dB_pdelta. unfold lS. pd_cbn. cbn [coef lin_cell cell_eqb]. lia.
+  - apply dB_pdelta. unfold lS. pd_cbn. cbn [coef lin_cell cell_eqb]. lia.
+  - apply dB_pdelta. unfold lS. pd_cbn. cbn [coef lin_cell cell_eqb]. lia.
+  - apply dB_pdelta. unfold lS. pd_cbn. cbn [coef lin_cell cell_eqb]. lia.
+  - sup_fin tk Htk.
+  - sup_fin tk Htk.
+  - sup_fin tk Htk.
+  - intros gh i' c' x. unfold gdS, geS, wS, ind. cbn [depc exec]. rewrite get2_set2. unfold key_eqb. cbn [fst snd].
+    rewrite (Z.eqb_sym i i'), (Z.eqb_sym c c'). destruct (i' =? i), (c' =? c); cbn [andb]; split; lia.
+  - intros gh i' c' x. unfold gdS, geS, wS, ind. cbn [depc exec]. rewrite get2_set2. unfold key_eqb. cbn [fst snd].
+    rewrite (Z.eqb_sym i i'), (Z.eqb_sym c c'). destruct (i' =? i), (c' =? c); cbn [andb]; split; lia.
+Qed.
+
+End SUP.
